@@ -27,8 +27,10 @@ Contains(s, x) == \E i \in DOMAIN s : s[i] = x
 Children(p, f) == IF f = "A" /\ ~p.noGit THEN p.childA ELSE <<>>    \* the list lives in gitconfig
 
 \* value a feature provides for the option ("" none)
+\* (p.optB: the option observed is one that diff-so-fancy / diff-highlight set themselves (a style); FALSE: one that
+\* no built-in feature sets and whose value has another type in the code (an optional string such as width))
 Provides(p, f) == IF ~p.noGit /\ f \in p.custom THEN "c_" \o f
-                  ELSE IF f \in Builtins THEN "b_" \o f ELSE ""
+                  ELSE IF f \in Builtins /\ p.optB THEN "b_" \o f ELSE ""
 
 \* ------------------------------- Impl --------------------------------------------
 \* The feature deque: index 1 = front.  push_front puts later-gathered features in front;
